@@ -2,7 +2,8 @@
    its decidable equality and ALL hash parameters: no property of Pedersen / Poseidon is used.
    Collision resistance is never assumed: it is the explicit disjunct [Collision]. *)
 From Coq Require Import List Bool Arith ZArith.
-From V Require Import C01.Trie2 C01.Trie2Proofs C10.Model C10.Proofs_A C10.Proofs_B C10.Proofs_C C10.Proofs_D C10.Proofs_E.
+From Coq Require Import NArith.
+From V Require Import C01.Trie2 C01.Trie2Proofs C10.Model C10.Proofs_A C10.Proofs_B C10.Proofs_C C10.Proofs_D C10.Proofs_E C10.Proofs_F C10.Proofs_G.
 Import ListNotations.
 
 (* ---------------- completeness ---------------- *)
@@ -220,3 +221,163 @@ Proof.
   eexists. vm_compute. repeat split; try reflexivity. discriminate.
 Qed.
 Print Assumptions C10_verify2_value_tag_refuted.
+
+(* ====================== ranged proofs (VerifyRangeProof of both tries) ====================== *)
+(* Model.v transcribes trie2.VerifyRangeProof (proofToPath / unsetInternal / unset / hasRightElement
+   over the proof set as a heap of linked objects, insert + hashing over the partially resolved trie)
+   and the legacy trie.VerifyRangeProof (buildPath / buildTrie / PutWithProof / updateValueIfDirty /
+   hasRightElement over the flat store); both are run against the code on every check. *)
+
+(* a partially resolved, height-typed trie hashing to the root of a canonical trie IS that trie with
+   sub-tries replaced by their hashes — or a collision / a zero hash is exhibited *)
+Theorem C10_refine_of_hash : forall F feq, (forall a b : F, feq a b = true <-> a = b) ->
+  forall fzero ped of_path add_len f0 (n : rnode F) h (t : node F),
+  rshape F h n = true -> canonb F fzero h t = true ->
+  rhash F ped of_path add_len f0 n = hash F ped of_path add_len t ->
+  refines F ped of_path add_len h n t \/ Collision F ped of_path add_len \/ ZeroHash F fzero ped of_path add_len f0.
+Proof. exact refine_of_hash. Qed.
+Print Assumptions C10_refine_of_hash.
+
+(* soundness of ranged proofs, by that reduction: whenever the certified verifier (the code's verifier
+   AND the certificate: the resolved trie hashes to the root, is height-typed, every unresolved
+   sub-trie lies outside [lo,hi], its leaves in [lo,hi] are the claimed entries) accepts against the
+   root of a canonical trie, the claimed entries are exactly the trie's entries in [lo,hi] and the
+   returned flag says whether an entry above hi exists. [lo,hi] = [first, last claimed key]
+   (general), [key,key] (single element), [first, max] (empty claim), [0,max] (no proof). *)
+Theorem C10_range_sound : forall F feq, (forall a b : F, feq a b = true <-> a = b) ->
+  forall fzero ped of_path add_len f0 H first kvs proof more (t : node F),
+  verify_range2_cert F feq fzero ped of_path add_len f0 H (hash F ped of_path add_len t) first kvs proof = ROk more ->
+  canonb F fzero H t = true ->
+  let '(lo, hi) := range_bounds F H first kvs proof in
+  ((forall k v, length k = H -> in_rangeb lo hi k = true -> (lookup F t k = Some v <-> In (k, v) kvs)) /\
+   ((lo <= hi)%N -> (more = true <-> exists k v, length k = H /\ lookup F t k = Some v /\ (hi < bval k)%N)))
+  \/ Collision F ped of_path add_len \/ ZeroHash F fzero ped of_path add_len f0.
+Proof. exact range2_cert_sound. Qed.
+Print Assumptions C10_range_sound.
+(* NOT proved (TARGET): "trie2.VerifyRangeProof accepts => the certificate holds" for every input.
+   It is FALSE as the code stands (witnesses below: the single-element and the empty-range branch never
+   recompute a hash); for the general branch it is checked on every accepted generated case by running
+   the extracted certificate. Completeness of the ranged case (honest range => accepted) is likewise
+   only run, not proved: TARGET range_complete_ranged; it fails for shared sub-nodes (witness below). *)
+
+(* ---------- witnesses: the faithful models reproduce the defects found in the code ---------- *)
+Definition bk (h : nat) (z : Z) : list bool := bits_of_Z h z.
+Fixpoint upd_nth {A : Type} (l : list A) (i : nat) (f : A -> A) : list A :=
+  match l, i with
+  | [], _ => []
+  | x :: r, O => f x :: r
+  | x :: r, S j => x :: upd_nth r j f
+  end.
+
+(* trie {1->5, 5->5}, height 3: the two leaf edges are the same node (same hash), the honest full
+   range makes trie2's unsetInternal walk into a value node: panic. Legacy accepts. *)
+Definition w_shared : htree := h_run 3 [(1, 5); (5, 5)]%Z.
+Theorem C10_range2_shared_subnodes_refuted :
+  let kvs := [(bk 3 1, HC 5); (bk 3 5, HC 5)] in
+  h_get w_shared (bk 3 1) = Some (HC 5) /\ h_get w_shared (bk 3 5) = Some (HC 5) /\
+  h_range2 w_shared (bk 3 1) kvs (Some (h_range_proof2 w_shared (bk 3 1) (bk 3 5))) = RPanic /\
+  h_range1 3 w_shared (bk 3 1) kvs (Some (h_range_proof1 w_shared (bk 3 1) (bk 3 5))) = ROk false.
+Proof. vm_compute. repeat split; reflexivity. Qed.
+
+(* trie {1->10, 5->11, 9->12}, height 4 *)
+Definition w_t : htree := h_run 4 [(1, 10); (5, 11); (9, 12)]%Z.
+
+(* legacy: the range [1,9] claimed WITHOUT the entry 5 is accepted (trie2 and the certified verifier refuse) *)
+Theorem C10_range1_inner_element_omitted_refuted :
+  let kvs := [(bk 4 1, HC 10); (bk 4 9, HC 12)] in
+  h_get w_t (bk 4 5) = Some (HC 11) /\
+  h_range1 4 w_t (bk 4 1) kvs (Some (h_range_proof1 w_t (bk 4 1) (bk 4 9))) = ROk false /\
+  h_range2 w_t (bk 4 1) kvs (Some (h_range_proof2 w_t (bk 4 1) (bk 4 9))) = RErr.
+Proof. vm_compute. repeat split; reflexivity. Qed.
+
+(* legacy: root = binary node: hasRightElement never runs; the honest range [1,8] of {1,8,9} comes
+   back with more = false although 9 follows (trie2: true) *)
+Definition w_m : htree := h_run 4 [(1, 10); (8, 11); (9, 12)]%Z.
+Theorem C10_range1_more_flag_refuted :
+  let kvs := [(bk 4 1, HC 10); (bk 4 8, HC 11)] in
+  h_get w_m (bk 4 9) = Some (HC 12) /\
+  h_range1 4 w_m (bk 4 1) kvs (Some (h_range_proof1 w_m (bk 4 1) (bk 4 8))) = ROk false /\
+  h_range2 w_m (bk 4 1) kvs (Some (h_range_proof2 w_m (bk 4 1) (bk 4 8))) = ROk true /\
+  h_range2_cert 4 w_m (bk 4 1) kvs (Some (h_range_proof2 w_m (bk 4 1) (bk 4 8))) = ROk true.
+Proof. vm_compute. repeat split; reflexivity. Qed.
+
+(* both: the single-element branch never recomputes a hash. Entry 5->11; the claim 5->255 with the
+   leaf edge of the proof altered to 255 (still stored under its honest hash) is accepted; the
+   certified verifier refuses *)
+Definition forged_single2 : pset2 hterm :=
+  upd_nth (h_range_proof2 w_t (bk 4 5) (bk 4 5)) 2
+    (fun e => (fst e, match snd e with QEdge p _ => QEdge p (CV (HC 255)) | n => n end)).
+Definition forged_single1 : pset1 hterm :=
+  upd_nth (h_range_proof1 w_t (bk 4 5) (bk 4 5)) 2
+    (fun e => (fst e, match snd e with PEdge p _ => PEdge p (HC 255) | n => n end)).
+Theorem C10_range_single_element_unchecked_refuted :
+  let kvs := [(bk 4 5, HC 255)] in
+  h_get w_t (bk 4 5) = Some (HC 11) /\
+  h_range2 w_t (bk 4 5) kvs (Some forged_single2) = ROk true /\
+  h_range1 4 w_t (bk 4 5) kvs (Some forged_single1) = ROk false /\
+  h_range2_cert 4 w_t (bk 4 5) kvs (Some forged_single2) = RErr.
+Proof. vm_compute. repeat split; reflexivity. Qed.
+
+(* trie2: the empty-range branch never recomputes a hash either. The root object replaced by an
+   edge that diverges below the key hides every entry: "no entry at or above 3" is accepted *)
+Definition forged_empty2 : pset2 hterm :=
+  upd_nth (h_range_proof2 w_t (bk 4 3) (bk 4 3)) 0
+    (fun e => (fst e, QEdge [false; false; false; false] (CH (HC 1)))).
+Theorem C10_range2_empty_range_unchecked_refuted :
+  h_get w_t (bk 4 5) = Some (HC 11) /\
+  h_range2 w_t (bk 4 3) [] (Some forged_empty2) = ROk false /\
+  h_range2_cert 4 w_t (bk 4 3) [] (Some forged_empty2) = RErr.
+Proof. vm_compute. repeat split; reflexivity. Qed.
+
+(* trie2: a proof set in which a node is (also) stored under the hash of one of its descendants is
+   cyclic once linked: the model runs out of fuel (the code does not terminate / overflows its stack) *)
+Definition cyclic2 : pset2 hterm :=
+  let ps := h_range_proof2 w_t (bk 4 1) (bk 4 9) in
+  upd_nth ps 1 (fun e => (fst e, match ps with (_, n0) :: _ => n0 | [] => snd e end)).
+Theorem C10_range2_cyclic_set_diverges :
+  h_range2 w_t (bk 4 1) [(bk 4 1, HC 10); (bk 4 5, HC 11); (bk 4 9, HC 12)] (Some cyclic2) = RFuel.
+Proof. vm_compute. reflexivity. Qed.
+
+(* honest ranges of w_t: accepted by all three verifiers with the right flag (non-vacuity of C10_range_sound) *)
+Example ex_range_honest :
+  let all := [(bk 4 1, HC 10); (bk 4 5, HC 11); (bk 4 9, HC 12)] in
+  h_range2_cert 4 w_t (bk 4 1) all (Some (h_range_proof2 w_t (bk 4 1) (bk 4 9))) = ROk false /\
+  h_range2_cert 4 w_t (bk 4 1) [(bk 4 1, HC 10); (bk 4 5, HC 11)] (Some (h_range_proof2 w_t (bk 4 1) (bk 4 5))) = ROk true /\
+  h_range2_cert 4 w_t (bk 4 5) [(bk 4 5, HC 11)] (Some (h_range_proof2 w_t (bk 4 5) (bk 4 5))) = ROk true /\
+  h_range2_cert 4 w_t (bk 4 10) [] (Some (h_range_proof2 w_t (bk 4 10) (bk 4 10))) = ROk false /\
+  h_range2_cert 4 w_t (bk 4 0) all None = ROk false /\
+  h_range1 4 w_t (bk 4 1) all (Some (h_range_proof1 w_t (bk 4 1) (bk 4 9))) = ROk false.
+Proof. vm_compute. repeat split; reflexivity. Qed.
+
+(* ====================== the RPC storage-proof response ====================== *)
+(* A client that checks (1) the two global roots against the block's state commitment [commitf],
+   (2) the contract proof against the contracts root, obtaining the leaf H(H(H(class, storage_root),
+   nonce), 0) of contract_leaves_data, (3) the storage proof against that storage_root — obtains the
+   slot's value in the state behind the commitment (zero = unset), whatever the response contains;
+   otherwise a trie-hash collision, two root pairs with one commitment, or a zero hash is exhibited.
+   tc = the real contracts trie, kr the real classes root, d' the contract's real leaf data, ts its
+   real storage trie. *)
+Theorem C10_rpc_slot_pinned : forall F feq, (forall a b : F, feq a b = true <-> a = b) ->
+  forall fzero f0, (forall x : F, fzero x = true <-> x = f0) ->
+  forall ped commitf of_path add_len H state_root croot kroot cproof addr d sproof key v
+    (tc : tree F) (kr : F) (d' : leafdata F) (ts : tree F),
+  rpc_verify_slot F feq fzero ped commitf of_path add_len f0 state_root croot kroot cproof addr d sproof key = Ok v ->
+  state_root = commitf (root F ped of_path add_len f0 tc) kr ->
+  canont F fzero H tc = true -> get F tc addr = Some (cleaf F ped f0 d') ->
+  canont F fzero H ts = true -> ld_sroot F d' = root F ped of_path add_len f0 ts ->
+  length addr = H -> length key = H -> 0 < H ->
+  v = vz F f0 (get F ts key)
+  \/ Collision F ped of_path add_len \/ CommitCollision F commitf \/ ZeroHash F fzero ped of_path add_len f0.
+Proof. exact rpc_slot_pins. Qed.
+Print Assumptions C10_rpc_slot_pinned.
+
+Theorem C10_rpc_class_pinned : forall F feq, (forall a b : F, feq a b = true <-> a = b) ->
+  forall fzero f0, (forall x : F, fzero x = true <-> x = f0) ->
+  forall pos commitf of_path add_len H state_root croot kroot kproof ch v (cr : F) (tk : tree F),
+  rpc_verify_class F feq fzero pos commitf of_path add_len f0 state_root croot kroot kproof ch = Ok v ->
+  state_root = commitf cr (root F pos of_path add_len f0 tk) ->
+  canont F fzero H tk = true -> length ch = H -> 0 < H ->
+  v = vz F f0 (get F tk ch)
+  \/ Collision F pos of_path add_len \/ CommitCollision F commitf \/ ZeroHash F fzero pos of_path add_len f0.
+Proof. exact rpc_class_pins. Qed.
+Print Assumptions C10_rpc_class_pinned.
